@@ -137,6 +137,7 @@ class UpdateLocationAnswer(UpdateLocation):
         self.header.is_proxyable = True
 
         setattr(self, "load", [])
+        setattr(self, "supported_features", [])
         setattr(self, "reset_id", [])
         setattr(self, "failed_avp", [])
         setattr(self, "proxy_info", [])
